@@ -166,7 +166,40 @@ class Renamer(ast.NodeTransformer):
         return node
 
 
+class ReturnViaLocal(ast.NodeTransformer):
+    """`return <expr>`  ->  `result_ = <expr>; return result_`  (a second behaviour-preserving transformation: it
+    removes every `return <call>` shape a syntactic recogniser might rely on)."""
+
+    def visit_Lambda(self, node):
+        return node
+
+    def _body(self, stmts):
+        out = []
+        for st in stmts:
+            st = self.visit(st)
+            if isinstance(st, ast.Return) and st.value is not None and not isinstance(st.value, (ast.Name, ast.Constant)):
+                out.append(ast.Assign(targets=[ast.Name(id="result_", ctx=ast.Store())], value=st.value, lineno=st.lineno))
+                out.append(ast.Return(value=ast.Name(id="result_", ctx=ast.Load())))
+            else:
+                out.append(st)
+        return out
+
+    def generic_visit(self, node):
+        for fld in ("body", "orelse", "finalbody"):
+            v = getattr(node, fld, None)
+            if isinstance(v, list) and v and isinstance(v[0], ast.stmt):
+                setattr(node, fld, self._body(v))
+        for h in getattr(node, "handlers", []) or []:
+            h.body = self._body(h.body)
+        for c in getattr(node, "cases", []) or []:
+            c.body = self._body(c.body)
+        return node
+
+
 def main():
+    via_local = "--return-via-local" in sys.argv
+    if via_local:
+        sys.argv.remove("--return-via-local")
     out = sys.argv[1]
     suffix = sys.argv[2] if len(sys.argv) > 2 else "_r"
     dst = os.path.join(out, "kingdon")
@@ -187,6 +220,8 @@ def main():
             for st in tree.body:
                 new_body.append(r.visit(st))
             tree.body = new_body
+            if via_local:
+                tree = ReturnViaLocal().visit(tree)
             ast.fix_missing_locations(tree)
             src = ast.unparse(tree) + "\n"
             compile(src, p, "exec")
